@@ -1,2 +1,209 @@
-(* C15 — property theorems (stub). *)
-From Klog Require Import Base.Prelude.
+(* C15 — calendar periods tile the calendar exactly.
+   Property theorems only: each is closed by [exact <lemma>] and followed by Print Assumptions.
+   Vocabulary (defined in Proofs/Calendar.v, Proofs/Period.v, Proofs/PeriodPattern.v):
+     valid c            c is a date 0000-01-01 .. 9999-12-31 (civil.IsValid + civil2Date's year range)
+     wf_date c          c is a date of the proleptic Gregorian calendar, any year
+     next_day           the Gregorian RULE (month lengths, leap years by 4/100/400): the independent reference
+     days_of            day number (Hinnant), 1970-01-01 = 0;  monday_of c = day number of the Monday of c's week
+     period_of k c      Week/Month/Quarter/Year{c}.Period()    previous_period k c = X{c}.Previous().Period()
+     period_edge, previous_edge   the dates whose (previous) period reaches outside 0000..9999: there the Go code
+                                  panics (findings K4, F8); the theorems below exclude exactly those and prove the panic *)
+From Klog Require Import Base.Prelude Model.Calendar Model.Period Proofs.Calendar Proofs.Period Proofs.PeriodPattern.
+Open Scope Z_scope.
+
+(* ------------------------------------------------------------------ 1. day numbers *)
+
+(* date -> day number -> date and day number -> date -> day number are identities on 0000-01-01..9999-12-31 *)
+Theorem C15_civil_days_roundtrip :
+  (forall c, valid c -> civil_from_days (days_of c) = c) /\
+  (forall z, days_of (mk 0 1 1) <= z <= days_of (mk 9999 12 31) ->
+             valid (civil_from_days z) /\ days_of (civil_from_days z) = z).
+Proof. exact civil_days_roundtrip. Qed.
+Print Assumptions C15_civil_days_roundtrip.
+
+(* the same for every year, negative ones included (the ISO week of 0000-01-01 needs year -1) *)
+Theorem C15_civil_days_roundtrip_all_years :
+  (forall c, wf_date c -> civil_from_days (days_of c) = c) /\
+  (forall z, wf_date (civil_from_days z) /\ days_of (civil_from_days z) = z).
+Proof. exact (conj cfd_days days_cfd). Qed.
+Print Assumptions C15_civil_days_roundtrip_all_years.
+
+(* the day number advances by one exactly as the Gregorian rule advances the date *)
+Theorem C15_days_next_day : forall c, valid c -> c <> mk 9999 12 31 ->
+  valid (next_day c) /\ days_of (next_day c) = days_of c + 1.
+Proof. exact days_next_day. Qed.
+Print Assumptions C15_days_next_day.
+
+(* Date.IsAfterOrEqual (year, month, day compared in turn) is the order of day numbers *)
+Theorem C15_date_order : forall a b, valid a -> valid b -> (cdate_geb a b = true <-> days_of b <= days_of a).
+Proof. exact date_order. Qed.
+Print Assumptions C15_date_order.
+
+(* Date.PlusDays(n) is the date n days later; it panics exactly when that date is outside 0000..9999 *)
+Theorem C15_plus_days_spec : forall c n, valid c ->
+  (forall r, plus_days c n = Ok r <-> (valid r /\ days_of r = days_of c + n)) /\
+  (plus_days c n = Crash CUnrepresentableDate <-> ~ exists r, valid r /\ days_of r = days_of c + n) /\
+  (forall e, plus_days c n <> Err e).
+Proof. exact plus_days_full_spec. Qed.
+Print Assumptions C15_plus_days_spec.
+
+(* ------------------------------------------------------------------ 2. weekday, ISO week, quarter *)
+
+(* Monday = 1 .. Sunday = 7; 1970-01-01 is a Thursday; each day the weekday advances by one *)
+Theorem C15_weekday_spec :
+  (forall c, 1 <= weekday c <= 7) /\
+  weekday (mk 1970 1 1) = 4 /\
+  (forall c, valid c -> c <> mk 9999 12 31 -> weekday (next_day c) = weekday c mod 7 + 1).
+Proof. exact weekday_spec. Qed.
+Print Assumptions C15_weekday_spec.
+
+(* ISO 8601 weeks: the seven days Monday..Sunday of a week, and only they, share (year, week);
+   week 1 is the week with January 4th; seven days later is the next week number of the same year, or week 1 of
+   the next year after the last week (52 or 53); the ISO year differs from the date's year by at most one *)
+Theorem C15_iso_week_spec :
+  (forall a b, valid a -> valid b -> (iso_week a = iso_week b <-> monday_of a = monday_of b)) /\
+  (forall c, valid c -> monday_of c <= days_of c <= monday_of c + 6 /\ weekday c = days_of c - monday_of c + 1) /\
+  (forall y, iso_week (mk y 1 4) = (y, 1)) /\
+  (forall a b, valid a -> valid b -> days_of b = days_of a + 7 ->
+     let y := fst (iso_week a) in let w := snd (iso_week a) in
+     1 <= w <= weeks_in_year y /\ 52 <= weeks_in_year y <= 53 /\
+     ((w < weeks_in_year y /\ iso_week b = (y, w + 1)) \/ (w = weeks_in_year y /\ iso_week b = (y + 1, 1)))) /\
+  (forall c, valid c -> c_year c - 1 <= fst (iso_week c) <= c_year c + 1).
+Proof. exact iso_week_spec. Qed.
+Print Assumptions C15_iso_week_spec.
+
+(* a year has 53 ISO weeks exactly when it starts on a Thursday, or on a Wednesday and is a leap year *)
+Theorem C15_weeks_in_year : forall y,
+  weeks_in_year y = if (weekday (mk y 1 1) =? 4) || ((weekday (mk y 1 1) =? 3) && is_leap y) then 53 else 52.
+Proof. exact weeks_in_year_rule. Qed.
+Print Assumptions C15_weeks_in_year.
+
+(* the quarter of month m is the q in 1..4 with 3q-2 <= m <= 3q *)
+Theorem C15_quarter_spec : forall c, valid c ->
+  1 <= quarter c <= 4 /\ 3 * quarter c - 2 <= c_month c <= 3 * quarter c.
+Proof. exact quarter_valid_spec. Qed.
+Print Assumptions C15_quarter_spec.
+
+(* ------------------------------------------------------------------ 3. periods tile the calendar *)
+
+(* For every date whose period is representable: Period() returns (s, u) with s <= c <= u, s and u the first and
+   last day of that week / month / quarter / year ([first_last_ok]), and every date from s to u has the same period. *)
+Theorem C15_period_tiles : forall k c, valid c -> ~ period_edge k c ->
+  exists s u, period_of k c = Ok (s, u) /\ valid s /\ valid u /\ days_of s <= days_of c <= days_of u
+    /\ first_last_ok k s u
+    /\ (forall c', valid c' -> days_of s <= days_of c' <= days_of u -> period_of k c' = Ok (s, u)).
+Proof. exact period_tiles. Qed.
+Print Assumptions C15_period_tiles.
+
+(* the excluded dates are exactly those where the Go code panics: the weeks of 0000-01-01/02 and 9999-12-27..31 (K4) *)
+Theorem C15_period_edge_crash : forall k c, valid c -> period_edge k c -> period_of k c = Crash CUnrepresentableDate.
+Proof. exact period_edge_crash. Qed.
+Print Assumptions C15_period_edge_crash.
+
+(* the unguarded statement "every valid date has a week period" is false of the code *)
+Theorem C15_period_total_refuted :
+  exists c, valid c /\ period_of KWeek c = Crash CUnrepresentableDate.
+Proof. exists (mk 0 1 1). split; [reflexivity | vm_compute; reflexivity]. Qed.
+Print Assumptions C15_period_total_refuted.
+
+(* the previous period is a period of the same kind, lies before c, and ends the day before c's period begins *)
+Theorem C15_previous_period : forall k c, valid c -> ~ previous_edge k c ->
+  exists s' u', previous_period k c = Ok (s', u') /\ valid s' /\ valid u' /\ days_of s' <= days_of u' < days_of c
+    /\ first_last_ok k s' u'
+    /\ period_of k u' = Ok (s', u')
+    /\ (forall s u, period_of k c = Ok (s, u) -> next_day u' = s /\ days_of u' + 1 = days_of s).
+Proof. exact previous_period_adjacent. Qed.
+Print Assumptions C15_previous_period.
+
+(* where no previous period exists inside 0000..9999 (first week, 0000-01, 0000-Q1, year 0000) Previous() panics (K4) *)
+Theorem C15_previous_edge_crash : forall k c, valid c -> previous_edge k c -> is_crash (previous_period k c) = true.
+Proof. exact previous_edge_crash. Qed.
+Print Assumptions C15_previous_edge_crash.
+
+Theorem C15_previous_total_refuted :
+  exists c, valid c /\ previous_period KYear c = Crash CExplicitPanic /\ previous_period KMonth c = Crash CUnrepresentableDate.
+Proof. exists (mk 0 1 31). split; [reflexivity | split; vm_compute; reflexivity]. Qed.
+Print Assumptions C15_previous_total_refuted.
+
+(* report buckets: Hash() never panics and two dates get the same hash exactly when they lie in the same period —
+   for ALL valid dates, the two boundary weeks included (ISO year -1 wraps to 2^32-128 and stays distinct) *)
+Theorem C15_hash_eq_iff_same_period : forall k a b, valid a -> valid b ->
+  exists ha hb, hash_of k a = Ok ha /\ hash_of k b = Ok hb /\ (ha = hb <-> same_period k a b).
+Proof. exact hash_eq_iff_same_period. Qed.
+Print Assumptions C15_hash_eq_iff_same_period.
+
+Theorem C15_day_hash_eq_iff : forall a b, valid a -> valid b ->
+  exists ha hb, day_hash a = Ok ha /\ day_hash b = Ok hb /\ (ha = hb <-> a = b).
+Proof. exact day_hash_eq_iff. Qed.
+Print Assumptions C15_day_hash_eq_iff.
+
+(* [same_period] is "Period() returns the same period" wherever Period() is defined *)
+Theorem C15_same_period_iff_period_eq : forall k a b, valid a -> valid b -> ~ period_edge k a -> ~ period_edge k b ->
+  (same_period k a b <-> period_of k a = period_of k b).
+Proof. exact same_period_iff_period_eq. Qed.
+Print Assumptions C15_same_period_iff_period_eq.
+
+(* ------------------------------------------------------------------ 4. period patterns *)
+
+(* a string is accepted exactly when it is YYYY, YYYY-MM, YYYY-Qq or YYYY-Ww[w] and names an existing, representable
+   period ([names_period]: month 1..12, quarter 1..4, an ISO week that some date has), and then with exactly its bounds *)
+Theorem C15_pattern_spec : forall s since until,
+  period_from_pattern s = Ok (since, until) <-> names_period s since until.
+Proof. exact pattern_spec. Qed.
+Print Assumptions C15_pattern_spec.
+
+(* everything else is rejected with an error — except the week patterns of year 9999 from W52 on *)
+Theorem C15_pattern_reject : forall s,
+  (forall since until, ~ names_period s since until) -> ~ (exists w, week_str s 9999 w /\ 52 <= w) ->
+  period_from_pattern s = Err EInvalidPeriod.
+Proof. exact pattern_reject. Qed.
+Print Assumptions C15_pattern_reject.
+
+(* those, and only those, make NewPeriodFromPatternString panic (F8) *)
+Theorem C15_pattern_crash_iff : forall s,
+  (exists k, period_from_pattern s = Crash k) <-> (exists w, week_str s 9999 w /\ 52 <= w).
+Proof. exact pattern_crash_iff. Qed.
+Print Assumptions C15_pattern_crash_iff.
+
+(* the unguarded statement "every string is accepted or rejected" is false of the code *)
+Theorem C15_pattern_total_refuted :
+  period_from_pattern b!"9999-W52" = Crash CUnrepresentableDate /\
+  period_from_pattern b!"9999-W53" = Crash CUnrepresentableDate.
+Proof. split; vm_compute; reflexivity. Qed.
+Print Assumptions C15_pattern_total_refuted.
+
+(* ------------------------------------------------------------------ non-vacuity and the cases named in the property *)
+
+Example C15_nonvacuous_dates :
+  valid (mk 2024 2 29) /\ ~ period_edge KWeek (mk 2024 2 29) /\ ~ previous_edge KWeek (mk 2024 2 29) /\
+  period_of KWeek (mk 2024 2 29) = Ok (mk 2024 2 26, mk 2024 3 3) /\
+  previous_period KMonth (mk 2024 3 31) = Ok (mk 2024 2 1, mk 2024 2 29) /\
+  iso_week (mk 2021 1 3) = (2020, 53) /\ iso_week (mk 0 1 1) = (-1, 52) /\
+  hash_of KWeek (mk 0 1 1) = Ok 4294967220.
+Proof.
+  split; [reflexivity|]. split; [unfold period_edge, week_edge, mk; cbn; lia|].
+  split; [unfold previous_edge, mk; cbn; lia|]. repeat (match goal with |- _ /\ _ => split end); vm_compute; reflexivity.
+Qed.
+
+Example C15_nonvacuous_patterns :
+  names_period b!"2020-W53" (mk 2020 12 28) (mk 2021 1 3) /\
+  period_from_pattern b!"2020-W53" = Ok (mk 2020 12 28, mk 2021 1 3) /\
+  period_from_pattern b!"2020-02" = Ok (mk 2020 2 1, mk 2020 2 29) /\
+  period_from_pattern b!"0000-W1" = Ok (mk 0 1 3, mk 0 1 9) /\
+  period_from_pattern b!"9999-W51" = Ok (mk 9999 12 20, mk 9999 12 26).
+Proof.
+  split; [apply pattern_spec; vm_compute; reflexivity|]. repeat (match goal with |- _ /\ _ => split end); vm_compute; reflexivity.
+Qed.
+
+(* month 00 / 13, quarter 0 / 5, week 00, week 53 of a 52-week year, week 54: rejected, not rolled over *)
+Example C15_nonexistent_periods_rejected :
+  period_from_pattern b!"2021-00" = Err EInvalidPeriod /\ period_from_pattern b!"2021-13" = Err EInvalidPeriod /\
+  period_from_pattern b!"2021-Q0" = Err EInvalidPeriod /\ period_from_pattern b!"2021-Q5" = Err EInvalidPeriod /\
+  period_from_pattern b!"2021-W00" = Err EInvalidPeriod /\ period_from_pattern b!"2021-W0" = Err EInvalidPeriod /\
+  period_from_pattern b!"2021-W53" = Err EInvalidPeriod /\ period_from_pattern b!"2020-W54" = Err EInvalidPeriod /\
+  (forall since until, ~ names_period b!"2021-W53" since until).
+Proof.
+  assert (N : forall since until, ~ names_period b!"2021-W53" since until).
+  { intros since until H. apply pattern_spec in H. vm_compute in H. discriminate. }
+  repeat (match goal with |- _ /\ _ => split end); try exact N; vm_compute; reflexivity.
+Qed.
